@@ -26,6 +26,7 @@ from collections.abc import (
     Iterator,
 )
 from contextlib import contextmanager
+from threading import RLock
 from typing import (
     Any,
     Optional,
@@ -37,6 +38,24 @@ from warnings import (
     warn,
     warn_explicit,
 )
+
+# ....................{ GLOBALS                            }....................
+catch_warnings_lock = RLock()
+'''
+**Reentrant thread lock serialising** :func:`warnings.catch_warnings` **contexts.**
+
+:func:`warnings.catch_warnings` saves the process-global state of the
+:mod:`warnings` module on entry and restores that state on exit and is thus
+*not* thread-safe: two contexts entered by two threads and exited in the same
+(rather than the reverse) order leave that module with the temporary state of the
+first context -- silently swallowing all subsequent warnings. Callers recording
+warnings while generating code should do so under this lock: e.g.,
+
+.. code-block:: python
+
+   with catch_warnings_lock, catch_warnings(record=True) as warnings_issued:
+       ...
+'''
 
 # ....................{ CONTEXTS                           }....................
 #FIXME: Unit test us up, please.
